@@ -127,6 +127,7 @@ structure St where
   lastSrtt : String := "0"
   d13Reported : Bool := false                 -- the D13 form of the credit mismatch is reported once per sequence
   lost : Bool := false                        -- a packet the predicates cannot interpret was processed (raw, parsed)
+  aborted : Bool := false                     -- the endpoint raised an ABORT at some point of this sequence (sticky)
   deriving Inhabited
 
 def lookupP (l : List ((Nat × Nat) × Nat)) (k : Nat × Nat) : Nat := (l.lookup k).getD 0
@@ -393,6 +394,9 @@ def readCheck (st : St) (name : String) (impl : List String) (pre post : Obs) : 
 def drainedCheck (st : St) (o : Obs) : List String := Id.run do
   let mut out : List String := []
   if st.lost then return out
+  -- an endpoint that has raised an ABORT (protocol violation, reassembly limit) drops what arrives until the write loop
+  -- sends the ABORT and closes: the premise of "drained" (a live association) no longer holds
+  if o.abort || st.aborted then return out
   for m in st.msgs do
     if !m.abandoned && !m.wasRead then
       out := out ++ [s!"[C01,C02] message {m.id} (stream {m.si}:{m.inc}) was delivered completely, never abandoned, and no read returned it"]
@@ -431,7 +435,7 @@ def step (st : St) (op impl : List String) : St × List String :=
         | _ => checkStep st pop pimpl pre post
       | none => (st, [])
     let (st2, v2) := checkAlways st1 post
-    ({ st2 with obs := post, haveObs := true, pending := none }, v1 ++ v2)
+    ({ st2 with obs := post, haveObs := true, pending := none, aborted := st2.aborted || post.abort }, v1 ++ v2)
   | _ => ({ st with pending := some (op, impl) }, [])
 
 end ReceiverSpec
